@@ -33,6 +33,15 @@ def generate(rng, tier):
             ctxflags = IGNORE_UNKNOWN | rng.choice([0, 0, NOCASE, COMMENTS])
             bounds = []
             toks = gen.gen_items(rng, opts, ctxflags, maxitems=4, bounds=bounds)
+            # half of the base texts already hold undeclared items (two unknown sections in one scope, an unknown
+            # item right after another, ...): such a text is itself accepted when the flag is set
+            if rng.random() < 0.5:
+                for _ in range(rng.randint(1, 3)):
+                    k0 = rng.choice(bounds)
+                    u0 = gen.gen_unknown(rng)
+                    toks = toks[:k0] + u0 + toks[k0:]
+                    bounds = [b if b <= k0 else b + len(u0) for b in bounds] + [k0 + len(u0)]
+                bounds = sorted(set(bounds))
             base = b" ".join(toks) + b"\n"
             for k in rng.sample(bounds, min(len(bounds), 3 if tier == "quick" else 6)):
                 if rng.random() < 0.04:
